@@ -298,6 +298,91 @@ fn perp_dot_units<S: Sn>(d: &mut Draw) -> Outcome {
 /// f64: dot / cross / perp_dot / magnitude2 / sum / product against the reference with a
 /// rounding-only tolerance, on regimes the exact tiers cannot represent (signed zeros, wide
 /// magnitudes, nearly cancelling terms, aliased operands)
+
+/// integers over their whole range: wherever the statement's own formula (evaluated left to right with the primitive
+/// operators of this build) has a value, the library must return that value and not panic
+macro_rules! int_products {
+    ($fname:ident, $S:ty) => {
+        fn $fname(d: &mut Draw) -> Outcome {
+            let w = |d: &mut Draw| -> $S {
+                match d.int(0, 4) {
+                    0 => d.bits64() as $S,
+                    1 => d.pick(&[<$S>::MAX, <$S>::MIN, <$S>::MAX - 1, 0, 1, 2]),
+                    2 => ((<$S>::MAX as f64).sqrt() as i64 + d.int(-3, 3)) as $S,
+                    _ => d.int(0, 20) as $S,
+                }
+            };
+            let a: [$S; 4] = [w(d), w(d), w(d), w(d)];
+            let b: [$S; 4] = [w(d), w(d), w(d), w(d)];
+            d.note("a", &a);
+            d.note("b", &b);
+            let mut defined = 0;
+            macro_rules! agree {
+                ($prim:expr, $lib:expr, $sig:expr, $what:expr) => {{
+                    if let Ok(want) = catches(move || $prim) {
+                        defined += 1;
+                        match catches(|| $lib) {
+                            Ok(got) => ensure!(got == want, $sig, "{}: {:?}, the formula gives {:?}", $what, got, want),
+                            Err(m) => return Outcome::Fail { sig: $sig, msg: format!("{} panicked ({}) although the formula has the value {:?}", $what, m, want) },
+                        }
+                    }
+                }};
+            }
+            let (a2, b2) = (Vector2::new(a[0], a[1]), Vector2::new(b[0], b[1]));
+            let (a3, b3) = (Vector3::new(a[0], a[1], a[2]), Vector3::new(b[0], b[1], b[2]));
+            let (a4, b4) = (Vector4::new(a[0], a[1], a[2], a[3]), Vector4::new(b[0], b[1], b[2], b[3]));
+            agree!(a[0] * b[1] - a[1] * b[0], a2.perp_dot(b2), "int-perp_dot", "Vector2::perp_dot");
+            agree!(a[0] * b[0], Vector1::new(a[0]).dot(Vector1::new(b[0])), "int-dot", "Vector1::dot");
+            agree!([a[1] * b[2] - a[2] * b[1], a[2] * b[0] - a[0] * b[2], a[0] * b[1] - a[1] * b[0]], { let c = a3.cross(b3); [c.x, c.y, c.z] }, "int-cross", "Vector3::cross");
+            // sums of more than two terms: the order of the additions is the library's business, so the formula counts as
+            // having a value only when it has one in *every* order (each product fits and the sum of their magnitudes fits)
+            let fits = |terms: &[i128]| terms.iter().all(|t| *t >= <$S>::MIN as i128 && *t <= <$S>::MAX as i128) && terms.iter().fold(0i128, |acc, t| acc.saturating_add(t.saturating_abs())) <= <$S>::MAX as i128;
+            macro_rules! agree_sum {
+                ($terms:expr, $lib:expr, $sig:expr, $what:expr) => {{
+                    let terms: Vec<i128> = $terms;
+                    if fits(&terms) {
+                        defined += 1;
+                        let want = terms.iter().sum::<i128>() as $S;
+                        match catches(|| $lib) {
+                            Ok(got) => ensure!(got == want, $sig, "{}: {:?}, the formula gives {:?}", $what, got, want),
+                            Err(m) => return Outcome::Fail { sig: $sig, msg: format!("{} panicked ({}) although the formula has the value {:?} in every order of evaluation", $what, m, want) },
+                        }
+                    }
+                }};
+            }
+            let p = |i: usize| (a[i] as i128).checked_mul(b[i] as i128).unwrap_or(i128::MAX);
+            let q = |i: usize| (a[i] as i128).checked_mul(a[i] as i128).unwrap_or(i128::MAX);
+            agree_sum!(vec![p(0), p(1)], a2.dot(b2), "int-dot", "Vector2::dot");
+            agree_sum!(vec![p(0), p(1), p(2)], a3.dot(b3), "int-dot", "Vector3::dot");
+            agree_sum!(vec![p(0), p(1), p(2), p(3)], a4.dot(b4), "int-dot", "Vector4::dot");
+            agree_sum!(vec![q(0), q(1)], a2.magnitude2(), "int-magnitude2", "Vector2::magnitude2");
+            agree_sum!(vec![q(0), q(1), q(2)], a3.magnitude2(), "int-magnitude2", "Vector3::magnitude2");
+            agree_sum!(vec![a[0] as i128, a[1] as i128, a[2] as i128, a[3] as i128], a4.sum(), "int-sum", "Vector4::sum");
+            {
+                // product(): defined in every order when the product of the non-zero magnitudes fits
+                let nz: i128 = a[..3].iter().filter(|x| **x != 0).fold(1i128, |acc, x| acc.saturating_mul((*x as i128).abs()));
+                if nz <= <$S>::MAX as i128 {
+                    defined += 1;
+                    let want = (a[0] as i128 * a[1] as i128 * a[2] as i128) as $S;
+                    match catches(|| a3.product()) {
+                        Ok(got) => ensure!(got == want, "int-product", "Vector3::product: {:?}, the formula gives {:?}", got, want),
+                        Err(m) => return Outcome::Fail { sig: "int-product", msg: format!("Vector3::product panicked ({}) although the product has the value {:?} in every order of evaluation", m, want) },
+                    }
+                }
+            }
+            agree!(a.iter().all(|x| *x == 0), a4.is_zero(), "int-is_zero", "Vector4::is_zero");
+            agree!([a[0] - b[0], a[1] - b[1]], { let c = a2 - b2; [c.x, c.y] }, "int-sub", "Vector2 - Vector2");
+            pass(if defined == 12 { "all-defined" } else if defined <= 3 { "mostly-overflowing" } else { "mixed" }, defined >= 4)
+        }
+    };
+}
+int_products!(int_products_u8, u8);
+int_products!(int_products_u32, u32);
+int_products!(int_products_u64, u64);
+int_products!(int_products_i8, i8);
+int_products!(int_products_i32, i32);
+int_products!(int_products_i64, i64);
+
 fn products_f64(d: &mut Draw) -> Outcome {
     let class = d.int(0, 3);
     let comp = |d: &mut Draw| -> f64 {
@@ -404,12 +489,24 @@ pub fn property() -> Property {
     s.push(SubCheck { name: "products-f64", scalar: "f64", quick: 6000, thorough: 400_000, len: 48, f: products_f64,
         required: &[("generic", 100), ("wide-magnitudes", 100), ("signed-zeros", 100), ("small-dyadic", 100)],
         rule: "every generated pair; regimes generic / wide magnitudes / signed zeros / small dyadic values, operands aliased now and then", exhaustive: false });
+    for (name, scalar, f) in [
+        ("int_products-u8", "u8", int_products_u8 as fn(&mut Draw) -> Outcome),
+        ("int_products-u32", "u32", int_products_u32),
+        ("int_products-u64", "u64", int_products_u64),
+        ("int_products-i8", "i8", int_products_i8),
+        ("int_products-i32", "i32", int_products_i32),
+        ("int_products-i64", "i64", int_products_i64),
+    ] {
+        s.push(SubCheck { name, scalar, quick: 1500, thorough: 100_000, len: 40, f, required: &[("mixed", 200)],
+            rule: "at least four of the twelve formulas have a value (no overflow) for the generated operands", exhaustive: false });
+    }
     Property {
         id: "C03",
         title: "Vectors form an inner-product space; cross and perp-dot products are exact",
         subchecks: s,
         assumptions: &[
             "integer tiers: components constructed in +-1024 (i64) / +-40 (i32) so that no product of the degree used overflows; divisors and moduli non-zero",
+            "int_products-*: operands over the whole integer range; a formula is compared only where it has a value - for perp_dot, cross and differences under the formula's own structure, for sums and products of three or more terms in every order of evaluation - in which case the library must return that value without panicking",
             "the remainder clauses are skipped in Fp (no remainder in a field)",
             "the per-component oracle uses the scalar's own primitive operator, which is what 'component by component' means",
         ],
